@@ -558,7 +558,9 @@ def _compute_sfs(
     if h is None:
         h = 0.5
     xx = dadi.Numerics.default_grid(pts)
-    phi = dadi.PhiManip.phi_1D(xx, theta0=theta, gamma=gamma, h=h, deme_ids=[root_deme])
+    # nu_funcs[0] holds the root deme's size relative to the reference size Ne
+    # (1 unless SFS was given an Ne different from the root size)
+    phi = dadi.PhiManip.phi_1D(xx, nu=nu_funcs[0][0], theta0=theta, gamma=gamma, h=h, deme_ids=[root_deme])
     
     # for each set of demographic events and integration epochs, step through
     # integration, apply events, and then reorder populations to align with demes
